@@ -163,7 +163,7 @@ def convert_cases(ev, scratch, ngraphs):
 def run(ev, vd):
     make(fbin("gfile"), fbin("graph-convert"))
     tr = os.path.join(BUILD, "tmp", "gfile.ndjson")
-    scratch = os.path.join(BUILD, "tmp", "gfile_files")
+    scratch = os.path.join(BUILD, "tmp", "gfile_files_%d" % os.getpid())
     shutil.rmtree(scratch, ignore_errors=True)
     os.makedirs(scratch, exist_ok=True)
     if os.path.exists(tr + ".crash"):
